@@ -321,7 +321,7 @@ def single_defs(fn):
         if isinstance(n, ast.Assign):
             for t in n.targets:
                 for x in ast.walk(t):
-                    if isinstance(x, ast.Name):
+                    if isinstance(x, ast.Name) and isinstance(x.ctx, ast.Store):  # `row[k] = v` stores into the object, it does not rebind `row`
                         counts[x.id] = counts.get(x.id, 0) + 1
             if len(n.targets) == 1 and isinstance(n.targets[0], ast.Name):
                 vals[n.targets[0].id] = n.value
